@@ -10,7 +10,8 @@
      categorical  one-hot d, probabilities x         E = -sum d log x                  g = -d/x                F = diag(1/x)
    compositions:  plain;  chain: E(A y) with an integer matrix A:  g = A^T g(Ay), M = A^T F(Ay) A;
                   ham: standard Hamiltonian = E + 1/2 |x|^2: g + x, M + 1;  scale: c E: c g, c M;
-                  sum: E1(x) + E2(x) (two kinds on the same parameters) *)
+                  sum: E1(x) + E2(x) (two kinds on the same parameters);
+                  avg: AveragedEnergy over the mirrored residual samples +v, -v:  1/2 (E(x+v) + E(x-v)), gradient and metric averaged alike *)
 EXTENDS Rat, Json
 VARIABLES inst, res
 vars == <<inst, res>>
@@ -70,7 +71,18 @@ Choose ==
      \/ \E k \in {"gaussian", "poisson"}, k2 \in {"studentt", "invgamma", "bernoulli"}, x \in Pts :
           Rec("sum", k, k2, x, Id(2), Z(1), [i \in 1..2 |-> Terms(k, x, i) \o Terms(k2, x, i)],
               <<RAdd(Grad(k, x, 1), Grad(k2, x, 1)), RAdd(Grad(k, x, 2), Grad(k2, x, 2))>>, MAdd(F2(k, x), F2(k2, x), 2, 2))
-Next == Choose \/ (inst.stage # "none" /\ UNCHANGED vars)
+Shift == <<R(1, 8), R(-1, 8)>>
+Plus(x) == <<RAdd(x[1], Shift[1]), RAdd(x[2], Shift[2])>>
+Minus(x) == <<RSub(x[1], Shift[1]), RSub(x[2], Shift[2])>>
+Half(ts) == [n \in 1..Len(ts) |-> T(RMul(R(1, 2), ts[n].c), ts[n].fn, ts[n].arg)]
+ChooseAvg ==
+  /\ inst.stage = "none"
+  /\ \E k \in Kinds, x \in Pts :
+        LET xp == Plus(x)  xm == Minus(x) IN
+        Rec("avg", k, k, x, Id(2), Z(1), [i \in 1..2 |-> Half(Terms(k, xp, i)) \o Half(Terms(k, xm, i))],
+            <<RMul(R(1, 2), RAdd(Grad(k, xp, 1), Grad(k, xm, 1))), RMul(R(1, 2), RAdd(Grad(k, xp, 2), Grad(k, xm, 2)))>>,
+            Diag2(RMul(R(1, 2), RAdd(Fish(k, xp, 1), Fish(k, xm, 1))), RMul(R(1, 2), RAdd(Fish(k, xp, 2), Fish(k, xm, 2)))))
+Next == Choose \/ ChooseAvg \/ (inst.stage # "none" /\ UNCHANGED vars)
 Spec == Init /\ [][Next]_vars
 \* ---- laws on the oracle -----------------------------------------------------------------------------------
 Symmetric == inst.stage = "done" => res.M[1][2] = res.M[2][1]
